@@ -184,9 +184,17 @@ def reachable_from(prog, roots):
 
 
 def public_api(prog):
+    """pub functions, and pub methods of types that are themselves `pub` (a `pub fn` on a pub(crate) type is not API)"""
+    adt_vis = {}
+    for a in prog.raw["adts"]:
+        adt_vis[a["path"]] = a.get("vis", "pub")
     out = []
     for b in prog.nonderived_bodies():
         if b.vis == "pub" and b.kind in ("Fn", "AssocFn") and not b.impl_trait:
+            if b.impl_self:
+                ty = b.impl_self.split("<")[0].strip()
+                if adt_vis.get(ty, "pub") != "pub":
+                    continue
             out.append(b)
     return out
 
